@@ -259,6 +259,28 @@ def run(tier, seed):
                                   {"entry": "verify_signature", "kind": kind, "alg": cr.alg, "signed_message_hex": M.hex(), "presented_data_hex": other.hex(), "signature_hex": sig.hex()})
             # ... and a signature made over the digest (as a caller holding only the digest would produce with a pre-hashed API) is no signature over M
             chk.seen(("verify-signature", kind, L))
+    # attestation statements: the algorithm the STATEMENT declares is the one its signature is verified with - keys of a type no listed algorithm denotes (Ed448), signatures
+    # made with another scheme (also when delivered inside a TPMT_SIGNATURE structure that names that other scheme), self attestation whose alg disagrees with the key
+    from harness import regsim, regcat, regrun
+    RB = regrun.RegBench(chk, br, oracle_obj=B.O)
+    for fmt, names in (("packed", ("wrong-scheme", "attestation-key-of-a-type-no-algorithm-denotes")), ("tpm", ("wrong-scheme", "signature-of-another-scheme-than-alg-declares")),
+                       ("packed-self", ("wrong-scheme", "alg-disagrees-with-key")), ("android-key", ("signed-by-other-key",))):
+        for nm in names:
+            if nm not in regcat.FORMAT_FAULTS[fmt]:
+                continue
+            reps = 0
+            while True:
+                reps += 1
+                s = regsim.RScn(fmt, "ES256-P256" if fmt != "tpm" else "RS256", "RS256" if fmt == "tpm" else "ES256-P256")
+                authcat.apply(regcat.FORMAT_FAULTS[fmt], nm, s, scope=f"c09:{fmt}:")
+                try:
+                    pd, reg = regsim.build(s)
+                except Exception:
+                    break
+                RB.run_case(regrun.policy_of(pd), reg, "dict", "reject", f"statement-scheme/{nm}/{fmt}", scn=s)
+                if not authcat.variants_left(nm, scope=f"c09:{fmt}:") or reps > 10:
+                    break
+    RB.close()
     B.close()
     fw.env_invariance(chk, "auth", "reg")          # the same seeded cases under -O / -OO, warnings-as-errors, other TZ / locale, a private CA bundle
     return fw.finish(chk, ob, br, TRUSTED,
